@@ -166,8 +166,8 @@ CHECKS = {
     "C18": (
         "model_checking",
         "exhaustive lattice of simulations expressible in the v1 vocabulary, each rendered by three independent renderers (YAML v2, TOML v2, YAML v1): three-way differential on configure() and on the output files",
-        "Every point of (release mode, extra column kind, IBM variable, diffusion, grid section explicit/omitted plain/omitted wildcard) crossed with a "
-        "round-robin (full in thorough) of (subgrid, advection, optional sections omitted/empty, reference time, dt spelling): the three spellings give the same "
+        "Every point of (release mode, extra column kind, IBM variable, diffusion, grid section explicit/omitted plain/omitted wildcard with * or a character class) crossed with a "
+        "round-robin (full in thorough) of (subgrid, advection, optional sections omitted/empty/blank, reference time, dt spelling): the three spellings give the same "
         "normalised configuration and bit-identical records and particle variables; runs with diffusion use one scripted random source.",
         "v1 vocabulary as in the v1 examples; TOML written by a minimal renderer.",
         "DESIGN.md §2 C18",
